@@ -10,7 +10,8 @@
 
    Concrete semantics (the modelling assumption): variables hold 256-bit words; an instruction only changes its
    outputs; `assign` and the 22 pure opcodes of RangeOp.word_op compute the Word256 function of their operands;
-   every other instruction (loads, calls, invoke, ...) may write ANY word to its outputs; `phi`s at the head of a
+   every other instruction (loads, calls, invoke, ...) may write ANY word to its outputs; `assert a` has a successor
+   only if a is non-zero; `phi`s at the head of a
    block are executed in parallel when the block is entered; jmp/jnz/djmp follow their labels. *)
 From Coq Require Import ZArith NArith Bool List String Lia.
 From Verif Require Import Base.Word256 Base.PyInt C14.RangeBase C14.GenRangeClients.
@@ -123,7 +124,7 @@ Fixpoint run_abs (e : aenv) (l : list inst) : res aenv :=
 Definition fact := (N * (string * list operand))%type.
 Definition fact_op (op : string) : bool :=
   String.eqb op "assign" || String.eqb op "iszero" || String.eqb op "eq" || String.eqb op "lt" || String.eqb op "gt"
-  || String.eqb op "slt" || String.eqb op "sgt".
+  || String.eqb op "slt" || String.eqb op "sgt" || String.eqb op "add" || String.eqb op "sub".
 Definition mentions (f : fact) (x : N) : bool := N.eqb (fst f) x || existsb (is_var x) (snd (snd f)).
 
 Definition cenv := N -> Z.
@@ -298,10 +299,15 @@ Definition check (f : func) (E : list aenv) : bool :=
 Definition cenv_ok (c : cenv) : Prop := forall x, 0 <= c x < W.
 Definition lv_ok (lv : N -> Z) : Prop := forall l, 0 <= lv l < W.
 
+(* `assert a` only continues when a is non-zero (otherwise the execution reverts: no successor configuration) *)
+Definition assert_passes (lv : N -> Z) (ins : inst) (c : cenv) : Prop :=
+  String.eqb (i_op ins) "assert" = true -> forall a, i_args ins = [a] -> oval lv c a <> 0.
+
 Definition step_conc (lv : N -> Z) (ins : inst) (c c' : cenv) : Prop :=
   (forall x, ~ In x (i_outs ins) -> c' x = c x) /\
   (forall x, In x (i_outs ins) -> 0 <= c' x < W) /\
-  (forall g o, sem_fun lv ins = Some g -> i_outs ins = [o] -> c' o = g c).
+  (forall g o, sem_fun lv ins = Some g -> i_outs ins = [o] -> c' o = g c) /\
+  assert_passes lv ins c.
 
 Definition targets (lv : N -> Z) (ins : inst) (c : cenv) : list N :=
   if String.eqb (i_op ins) "jmp" then match i_args ins with [OLab l] => [l] | _ => [] end
